@@ -451,7 +451,8 @@ Qed.
 
 Lemma tx_prove_commit_good m secs m' d : minv m -> tx_prove_commit m secs = Ok (m', d) -> tx_good m m' d.
 Proof.
-  intros I. unfold tx_prove_commit. destruct secs as [|x secs]; [discriminate|]. intros H.
+  intros I. unfold tx_prove_commit. destruct secs as [|x secs]; [discriminate|].
+  destruct (negb (all_precommitted m (x :: secs))); [discriminate|]. intros H.
   apply bind_ok in H. destruct H as ([[m1 dep] pl] & B1 & H).
   apply bind_ok in H. destruct H as (m2 & B2 & H).
   apply bind_ok in H. destruct H as (m3 & B3 & H). inv_ok H.
@@ -949,4 +950,44 @@ Proof.
     apply add_ip_ok in B2. destruct B2 as (-> & S2).
     apply m_unlock_both_ok in B3; [|apply I|apply I]. destruct B3 as (t1 & l1 & -> & L1 & L2 & L3).
     cbn in *. repeat split; lia.
+Qed.
+
+(* a sector named twice in a prove-commit batch: the whole batch is rejected *)
+Lemma prove_each_fresh l : forall m dep pl r s,
+  precommits m !! s = None -> prove_each m l dep pl = Ok r -> s ∉ map fst l.
+Proof.
+  induction l as [|[s' p] l IH]; intros m dep pl r s Hs; cbn [prove_each map fst].
+  - intros _. apply not_elem_of_nil.
+  - destruct (p <? 0); [discriminate|].
+    destruct (precommits m !! s') as [d|] eqn:Ed; [|discriminate].
+    destruct (has (sectors m) s' || has (awaiting m) s'); [discriminate|].
+    intros H. apply not_elem_of_cons. split.
+    + intros ->. rewrite Hs in Ed. discriminate.
+    + eapply IH; [|exact H]. cbn. destruct (decide (s = s')) as [->|Hne].
+      * apply lookup_delete.
+      * rewrite lookup_delete_ne by congruence. exact Hs.
+Qed.
+
+Lemma prove_each_nodup l : forall m dep pl r,
+  prove_each m l dep pl = Ok r -> base.NoDup (map fst l).
+Proof.
+  induction l as [|[s p] l IH]; intros m dep pl r; cbn [prove_each map fst].
+  - intros _. constructor.
+  - destruct (p <? 0); [discriminate|].
+    destruct (precommits m !! s) as [d|] eqn:Ed; [|discriminate].
+    destruct (has (sectors m) s || has (awaiting m) s); [discriminate|].
+    intros H. apply NoDup_cons_2.
+    + eapply prove_each_fresh; [|exact H]. cbn. apply lookup_delete.
+    + eapply IH. exact H.
+Qed.
+
+Theorem duplicate_prove_commit_aborts m s p1 p2 l1 l2 l3 r :
+  tx_prove_commit m (l1 ++ (s, p1) :: l2 ++ (s, p2) :: l3) = Ok r -> False.
+Proof.
+  unfold tx_prove_commit. destruct (l1 ++ (s, p1) :: l2 ++ (s, p2) :: l3) as [|x l] eqn:El; [discriminate|].
+  rewrite <- El. destruct (negb (all_precommitted m _)); [discriminate|]. intros H.
+  apply bind_ok in H. destruct H as (a & B1 & _). apply prove_each_nodup in B1.
+  rewrite map_app in B1. apply list.NoDup_app in B1. destruct B1 as (_ & _ & B1).
+  cbn [map fst] in B1. apply list.NoDup_cons in B1. destruct B1 as [B1 _]. apply B1.
+  rewrite map_app. apply elem_of_app. right. cbn. apply elem_of_list_here.
 Qed.
